@@ -6,7 +6,10 @@ from . import cu
 MODULES = ['DsdVerif.Props.C08']
 GEN_FILES = []
 THEOREM_NAMES = ['loop_index_spec', 'loop_index_modes_agree', 'exterior_spec', 'not_connected_of_error', 'error_of_not_connected',
-                 'makeLoopIndex_linear']
+                 'makeLoopIndex_linear',
+                 # object level (Model/CplxObject): Props/C08Obj.lean
+                 'isConnected_iff', 'disconnected_views_raise', 'disconnected_no_cache', 'exterior_enclosed_partition',
+                 'views_after_rotation']
 THEOREMS = ['Dsd.C08.' + t for t in THEOREM_NAMES]
 ASSUMPTIONS = [
     'make_loop_index is hand-modelled on linear positions (Model/Complex.lean: loopStep, makeLoopIndex) and tied to the code by the '
@@ -20,12 +23,15 @@ MANIFEST = {
             'reported exterior set is exactly the set of loops containing a strand break or the outer ends), and connectivity in both '
             'directions (not_connected_of_error, error_of_not_connected: the plain mode fails exactly when the strands do not form a '
             'single component under pairing - quantified over every set of strands closed under pairing), all for structures of any '
-            'size, plus makeLoopIndex_linear connecting the locus-level function to the linear scan. The model is tied to '
-            'make_loop_index by exhaustive correspondence in both `components` modes; the object views is_connected, exterior / '
-            'enclosed domains, get_loop_index and is_domainlevel_complement are decided on the real code against an independent '
-            'quadratic reference and a union-find oracle (they are thin wrappers, modelled in Model/CplxObject.lean).',
-    'note': 'is_domainlevel_complement and the exterior/enclosed partition of the object are checked by oracle + correspondence, '
-            'not by a separate theorem; trusted base as in DESIGN.md section 3.',
+            'size, plus makeLoopIndex_linear connecting the locus-level function to the linear scan. OBJECT LEVEL (Model/CplxObject, for '
+            'coherent objects with a well-formed structure, after any queries): isConnected_iff (true exactly for one component, never '
+            'raises), disconnected_views_raise + disconnected_no_cache (exterior / enclosed raise SecondaryStructureError every time '
+            'they are asked; a failure is never cached), exterior_enclosed_partition (the two views list every unpaired position '
+            'exactly once, in strand-major order; a position is exterior iff the pairs enclosing it are exactly those enclosing some '
+            'nick or the outer end), views_after_rotation (after turns = v the views are the re-indexed views). The model is tied to '
+            'make_loop_index by exhaustive correspondence in both `components` modes and to the object views by the C03 / C08 streams; '
+            'is_domainlevel_complement is decided on the real code against an independent reference.',
+    'note': 'is_domainlevel_complement is checked by the oracle only; trusted base as in DESIGN.md section 3.',
     'technique': 'Lean 4 invariant proof over the loop-index scan (innermost enclosing pair = stack top) + connectivity by descent; correspondence check',
 }
 
